@@ -84,10 +84,23 @@ DESCR = {
                'custom output whose message differs from its name, completed, task still pooled, then a reload'),
     'S-C28b': ('commands.py force_trigger_tasks: upstream IDs built without the cycle offset when grouping members',
                'one group trigger whose members span several cycle points linked only by an inter-cycle trigger'),
+    'S-C26b': ('workflow_db_mgr.py put_task_pool: is_held stored only for waiting tasks',
+               'a task that has already started (or finished incomplete) is then held by `cylc hold` or killed'),
+    'S-C27b': ('task_proxy.py copy_to_reload_successor: `pre_reload.get(k) or check_output(...)` re-evaluates existing unsatisfied prerequisites from the DB',
+               'a pooled task with an unsatisfied prerequisite whose output is recorded in the DB (task removed and respawned by another parent), then a reload'),
+    'S-C22b': ('broadcast_mgr.py put_broadcast: first setting of a target stored without a copy, nested sections shared between targets',
+               'one broadcast to several new (point, namespace) targets with a nested section, then a change, cancel or expiry aimed at one of them'),
+    'S-C10b': ('scheduler.py process_queued_task_messages: poll flag overwritten by each later message of the batch',
+               'a backward message (started after the final message) followed in the same main-loop batch by another message of the same task'),
+    'S-C43b': ('scheduler.py: the stop point is forgotten whenever the automatic shutdown is decided, also when a stop task or the stop clock caused it',
+               'a stop cycle point not yet reached together with a stop task (or stop clock time) that ends the run first'),
     'S-C31': ('cycling/integer.py get_nearest_prev_point reduced to get_prev_point',
               'sequential task on a finite recurrence followed after a gap by another recurrence'),
 }
 NOTES = {
+    'S-C27b': 'first missed: no C27 run had an unsatisfied prerequisite whose output was in the DB; the workload now removes a partially satisfied waiting task before the reload (another parent respawns it)',
+    'S-C10b': 'first missed: the poll that must follow a backward message was recorded but never checked; C10 now requires a poll of that job within 12 iterations unless the task left the pool or went back to waiting',
+    'S-C43b': 'first missed (C43 and C19): no run combined a stop point with a stop task; C43 now does in half of its stop-task cases and requires the unreached stop point to survive in the DB',
     'S-C09b': 'caught by C27 (outputs across a reload); C09 has no reload in its workload',
     'S-C01b': 'caught by C09 and C10; C01 does not see it (with message loss its closure check only gives a lower bound)',
     'S-C03b': 'first missed: no check combined manual triggers with job-preparation failures; the bash -n seam now injects them and C28 got the stranded-member rule',
